@@ -635,6 +635,29 @@ Proof.
     rewrite Ef'. reflexivity.
 Qed.
 
+(* check_candidate: the verdict a connection gets before it authenticates depends on the
+   authenticated sessions and on that connection itself only *)
+Theorem check_candidate_unauth_powerless t id :
+  check_candidate t id = check_candidate (commit_part t id) id.
+Proof.
+  unfold check_candidate.
+  destruct (find_sess t id) as [s|] eqn:Ef.
+  - assert (Hid : N.eqb (s_id s) id = true).
+    { unfold find_sess in Ef. apply find_some in Ef. tauto. }
+    assert (Ef' : find_sess (commit_part t id) id = Some s).
+    { unfold find_sess, commit_part in *. simpl. apply find_filter_true; auto.
+      rewrite Hid. apply orb_true_r. }
+    rewrite Ef'. destruct (s_peer s) as [peer|]; [|reflexivity].
+    assert (Hc : candidates_for_peer (commit_part t id) peer true = candidates_for_peer t peer true).
+    { rewrite <- (candidates_auth_part (commit_part t id)), <- (candidates_auth_part t).
+      unfold auth_part, commit_part. simpl. f_equal. f_equal.
+      rewrite filter_filter. apply filter_ext. intros x. destruct (s_auth x); simpl; [reflexivity|apply andb_false_r]. }
+    rewrite Hc. reflexivity.
+  - assert (Ef' : find_sess (commit_part t id) id = None).
+    { unfold find_sess, commit_part in *. simpl. now apply find_filter_none. }
+    rewrite Ef'. reflexivity.
+Qed.
+
 (* ------------------------------------------------------------------ *)
 (* C18 (5): at most one elected accepted session per peer              *)
 
